@@ -149,6 +149,7 @@ package diam
 //@   property C01 C03
 //@   pure
 //@   requires m != nil
+//@   assume default_dictionary_initialised: dict.Default != nil
 //@   ensures nonnil: d != nil
 //@ end
 //@
